@@ -32,7 +32,9 @@ RULE = (
     "content version; TLC checks the intended design exhaustively (2 digests, 3 threads, at most 6 Gets / 3 updates in the quick and 10 Gets / 5 updates in the thorough tier, "
     "write success/failure): useCount balance, in-use handle in the map, no lost update after draining, "
     "monotonic writes, pending content carried. The real store runs over a gated fake ISCC BlobAccess inside "
-    "testing/synctest; TLC-generated schedules (counterexample of the as-coded model variant, simulated "
+    "testing/synctest; content is the set of updates a message incorporates (a bit per dirty release), so that a "
+    "handle created from a stale read visibly lacks updates; TLC-generated schedules (counterexamples of the "
+    "as-coded and of the no-read-guard model variants, simulated "
     "behaviours) and seeded random schedules are executed, the hook exports every handle's fields after each "
     "step, the store is drained and read back, and TLC evaluates the same predicates on the observed states."
 )
@@ -60,7 +62,7 @@ def _run_and_validate(ctx, binary, test, label, cfg, env, timeout_drv=1200, time
 def _generate_schedules(ctx):
     """Spec -> code direction for the store: schedules from TLC."""
     wd = ctx.sub("iscc_gen")
-    cfgs = ["MC_ISCC_store_ascoded.cfg", "Sim_ISCC_store.cfg"]
+    cfgs = ["MC_ISCC_store_ascoded.cfg", "MC_ISCC_store_staleread.cfg", "Sim_ISCC_store.cfg"]
     if not ctx.quick():
         cfgs.append("MC_ISCC_store_ascoded2.cfg")
     vlib.copy_specs(wd, [SPEC, GEN] + cfgs)
@@ -69,7 +71,11 @@ def _generate_schedules(ctx):
     # 1. counterexamples of the "as coded" variant of the model (version rule
     #    currentVersion = writtenVersion + 1, no write guard): TLC is expected
     #    to break the predicate; the invariant writes the schedule.
+    #    Likewise for the design without the read guard (finding F11: a Get()
+    #    that read before another handle's content was written inserts its
+    #    stale copy).
     for cfg, inv, fname in [("MC_ISCC_store_ascoded.cfg", "CexNoLostUpdate", "cex_nolostupdate.ndjson"),
+                            ("MC_ISCC_store_staleread.cfg", "CexStaleRead", "cex_staleread.ndjson"),
                             ("MC_ISCC_store_ascoded2.cfg", "CexInUseInMap", "cex_inuseinmap.ndjson")]:
         if cfg not in cfgs:
             continue
@@ -82,9 +88,9 @@ def _generate_schedules(ctx):
         if r.violated == inv and os.path.exists(p):
             shutil.copy(p, os.path.join(sched, "a_" + fname))
             info["counterexamples"].append(fname)
-            vlib.log("TLC %s: as-coded model variant breaks %s after %d states; schedule written" % (cfg, inv, r.generated))
+            vlib.log("TLC %s: weakened model variant breaks %s after %d states; schedule written" % (cfg, inv, r.generated))
         elif r.ok:
-            vlib.log("TLC %s: as-coded model variant has no counterexample within the bounds" % cfg)
+            vlib.log("TLC %s: weakened model variant has no counterexample within the bounds" % cfg)
         else:
             raise vlib.Infra("counterexample search %s failed: %s\n%s" % (cfg, r.violated or r.error, r.output[-2000:]))
     # 2. simulated behaviours
